@@ -95,6 +95,18 @@ type PortalCache interface {
 	Execute(ctx context.Context, name string, reader *buffer.Reader, writer *buffer.Writer) error
 }
 
+// StatementCloser is an optional interface of a statement cache. When it is
+// implemented, a Close message removes the named prepared statement.
+type StatementCloser interface {
+	Close(ctx context.Context, name string) error
+}
+
+// PortalCloser is an optional interface of a portal cache. When it is
+// implemented, a Close message removes the named portal.
+type PortalCloser interface {
+	Close(ctx context.Context, name string) error
+}
+
 type CloseFn func(ctx context.Context) error
 
 // OptionFn options pattern used to define and set options for the given
